@@ -53,6 +53,7 @@ def check(ctx):
     rep.floor("visited-set / work-list loops (L3)", lr.counts["L3"], 1)
     eofstores.check(ctx, rep)
     sccs = recursion.check(ctx, E, rep, decoder=True)
+    recursion.check_guard_balance(ctx, rep)
     rep.floor("recursive call-graph cycles examined", len(sccs), 4)
     rep.assume("A2: a caller-supplied PathResolver returns (its results are unconstrained, which is why only visited sets certify ref chasing)")
     rep.assume("A6: fewer than 2^64 loop iterations per run")
